@@ -284,6 +284,19 @@ func (g *genState) newCtr(pod *PodSpec) *CtrSpec {
 			c.MemReq = c.MemLimit / 2
 		}
 	}
+	if g.prop == "C12" && r.Chance(0.15) {
+		// the container arrives with memory nodes of its own (set by the
+		// runtime or by a plugin earlier in the chain): one DRAM node
+		var dram []int
+		for _, n := range g.m.Nodes {
+			if n.Type == "dram" && n.MemKB > 0 {
+				dram = append(dram, n.ID)
+			}
+		}
+		if len(dram) > 0 {
+			c.InitMems = fmt.Sprint(verifrt.Pick(r, dram))
+		}
+	}
 	return c
 }
 
